@@ -154,6 +154,10 @@ def run_oracle_case(w, rng, policy, case, stats, n_values=2):
     root = qo.resolve_root(w, roottok)
     st, U = qo.call(fname, root, sel=sel, rec=rec, key=key)
     vals = [qo.value_of(fname, e, key, root) for e in U] if st == 'ok' else []
+    if fname in qo.HIER and st == 'ok' and U and isinstance(root, qo.HRef):
+        # below a reference the names are relative to it: patterns built from the FULL names of some results must
+        # then select nothing that the relative names do not select
+        vals = vals + [e.name for e in rng.sample(U, min(2, len(U)))]
     patsets = qo.derive_patterns(rng, vals, n_values) if qo.FUNCS[fname][2] else []
     if patsets and key == 'EDIF.identifier' and getattr(w, 'extra_patterns', None):
         # identifiers of elements whose creation was refused earlier: nothing carries them
